@@ -42,16 +42,32 @@ TOneShot == /\ l <= Len(Trace) /\ Ev.ev = "oneshot" /\ ~rejected
             /\ OneShotOK(Ev)
             /\ l' = l + 1 /\ UNCHANGED <<vars, tid, rejected>>
 
+\* nested writers: the outer writer (prefix p2) writes into the inner one (prefix p1), calls go to either of them in
+\* any order; each writer is the machine of Indent.tla on the bytes it is handed, so what reaches the sink is the
+\* inner rendering of the stream made of the inner calls' chunks and the outer writer's renderings of its chunks
+RECURSIVE NestStream(_, _, _)
+NestStream(p2, calls, open2) ==
+  IF calls = <<>> THEN <<>>
+  ELSE LET c == Head(calls) IN
+       IF c.lvl = 1 THEN c.chunk \o NestStream(p2, Tail(calls), open2)
+       ELSE LET j == Joined(p2, c.chunk, open2)
+                o2 == IF c.chunk = <<>> THEN open2 ELSE c.chunk[Len(c.chunk)] # NL
+            IN Bytes(j, Len(j)) \o NestStream(p2, Tail(calls), o2)
+NestedOK(e) == e.sink = IndentOf(e.p1, NestStream(e.p2, e.calls, FALSE), TRUE)
+TNested == /\ l <= Len(Trace) /\ Ev.ev = "nested" /\ ~rejected
+           /\ NestedOK(Ev)
+           /\ l' = l + 1 /\ UNCHANGED <<vars, tid, rejected>>
 TReject == /\ l <= Len(Trace) /\ ~rejected
            /\ \/ Ev.ev = "write" /\ ~failed /\ ~WriteOK(Ev)
               \/ Ev.ev = "oneshot" /\ ~OneShotOK(Ev)
+              \/ Ev.ev = "nested" /\ ~NestedOK(Ev)
            /\ PrintT(<<"REJECT", tid, l>>)
            /\ rejected' = TRUE /\ l' = l + 1 /\ UNCHANGED <<vars, tid>>
 
 TSkip == /\ l <= Len(Trace) /\ Ev.ev # "reset" /\ (rejected \/ (failed /\ Ev.ev = "write"))
          /\ l' = l + 1 /\ UNCHANGED <<vars, tid, rejected>>
 
-TNext == Reset \/ TWrite \/ TOneShot \/ TReject \/ TSkip
+TNext == Reset \/ TWrite \/ TOneShot \/ TNested \/ TReject \/ TSkip
 TSpec == TInit /\ [][TNext]_tvars
 MCNL == 10
 Consumed == TLCGet("stats").diameter - 1 = Len(Trace)
